@@ -76,11 +76,11 @@ Proof. intros H. destruct (active_get p a H) as (s & E). cbn. now rewrite E. Qed
 
 Theorem refused_without_session p a :
   active p a = false ->
-  (forall ok, fst (sstep_ev p (SExecute a ok)) = ENotInProgress) /\
+  (forall sw ok, fst (sstep_ev p (SExecute a sw ok)) = ENotInProgress) /\
   (forall sender valid, fst (sstep_ev p (SContribute a sender valid)) = ENotFound) /\
   (forall ok, fst (sstep_ev p (SCommit a ok)) = ENotInProgress) /\
   fst (sstep_ev p (SAbort a)) = ENotInProgress /\
-  (forall e, (exists ok, e = SExecute a ok) \/ (exists s v, e = SContribute a s v) \/ (exists ok, e = SCommit a ok) \/ e = SAbort a ->
+  (forall e, (exists sw ok, e = SExecute a sw ok) \/ (exists s v, e = SContribute a s v) \/ (exists ok, e = SCommit a ok) \/ e = SAbort a ->
      p_accounts (snd (sstep_ev p e)) = p_accounts p /\ active (snd (sstep_ev p e)) a = false).
 Proof.
   intros H. pose proof (inactive_get p a H) as G.
@@ -92,8 +92,8 @@ Proof.
     - cbn [snd]. split; [exact H|reflexivity]. }
   destruct (get_generation p a) as [g p1] eqn:Eg. cbn in G, Hp1. subst g.
   repeat split; intros; cbn; rewrite ?Eg; auto.
-  - destruct H0 as [(ok & ->)|[(s & v & ->)|[(ok & ->)| ->]]]; cbn; rewrite Eg; cbn; tauto.
-  - destruct H0 as [(ok & ->)|[(s & v & ->)|[(ok & ->)| ->]]]; cbn; rewrite Eg; cbn; tauto.
+  - destruct H0 as [(sw & ok & ->)|[(s & v & ->)|[(ok & ->)| ->]]]; cbn; rewrite Eg; cbn; tauto.
+  - destruct H0 as [(sw & ok & ->)|[(s & v & ->)|[(ok & ->)| ->]]]; cbn; rewrite Eg; cbn; tauto.
 Qed.
 
 (* ---- commit succeeds only with a contribution from every listed participant ---- *)
@@ -147,7 +147,7 @@ Theorem new_prepare_after_gone p a thr parts :
   active p a = false -> (0 < thr)%nat ->
   fst (sstep_ev p (SPrepare a thr parts)) = EOk /\ active (snd (sstep_ev p (SPrepare a thr parts))) a = true.
 Proof.
-  intros H Ht. pose proof (inactive_get p a H) as G. cbn.
+  intros H Ht. pose proof (inactive_get p a H) as G. cbn [sstep_ev].
   destruct (get_generation p a) as [g p1] eqn:Eg. cbn in G. subst g.
   destruct (Nat.eqb_spec thr 0); [lia|]. cbn. split; auto.
   unfold active, get_generation. cbn [p_sessions with_sessions p_now p_timeout].
@@ -158,7 +158,7 @@ Qed.
 (* other names are never affected by an event for a *)
 Lemma other_name_untouched p e a b :
   a <> b ->
-  (e = SAbort a \/ (exists t ps, e = SPrepare a t ps) \/ (exists ok, e = SExecute a ok) \/
+  (e = SAbort a \/ (exists t ps, e = SPrepare a t ps) \/ (exists sw ok, e = SExecute a sw ok) \/
    (exists s v, e = SContribute a s v) \/ (exists ok, e = SCommit a ok)) ->
   sfind b (p_sessions (snd (sstep_ev p e))) = sfind b (p_sessions p).
 Proof.
@@ -167,7 +167,7 @@ Proof.
   { unfold get_generation. destruct (sfind a (p_sessions p)); auto. destruct (_ <? _); cbn; auto.
     rewrite sfind_sremove. destruct (String.eqb_spec b a); [congruence|auto]. }
   assert (Hne : String.eqb b a = false) by (destruct (String.eqb_spec b a); [congruence|auto]).
-  destruct He as [->|[(t & ps & ->)|[(ok & ->)|[(s & v & ->)|(ok & ->)]]]]; cbn;
+  destruct He as [->|[(t & ps & ->)|[(sw & ok & ->)|[(s & v & ->)|(ok & ->)]]]]; cbn [sstep_ev];
     destruct (get_generation p a) as [[s0|] p1]; cbn [snd] in *;
     repeat match goal with |- context [if ?b then _ else _] => destruct b end; cbn; auto;
     rewrite ?sfind_sput, ?sfind_sremove, ?Hne; auto.
